@@ -102,7 +102,14 @@ Theorem C03_client_nobody : forall tp is_head rest,
 Proof. exact parse_nobody. Qed.
 Print Assumptions C03_client_nobody.
 
-(* frame, end to end through HTTPChannel.service, for plain applications without a
+(* The three end-to-end frame theorems below are named _partial because they
+   cover PLAIN applications only (one start_response, header names that play no
+   part in framing, a generator or sized iterable of byte chunks, nothing
+   raised), not because of any open defect: file wrappers, write() mixed with
+   iteration and several start_response calls are covered by the client lemmas
+   above, by C03_close_too_few / C09_outcome, and by the correspondence + search.
+
+   frame, end to end through HTTPChannel.service, for plain applications without a
    declared length (one start_response without Content-Length, header names that
    play no part in framing, a generator or a sized iterable of any number <> 1 of
    chunks, empty ones included, non-HEAD, status with a body, client connected,
@@ -171,27 +178,55 @@ Proof.
 Qed.
 Print Assumptions C03_frame_length_partial.
 
-(* The full statement is false of the faithful model in three classes. *)
-Theorem C03_head_chunked_refuted :
-  let res := run_task sample_cfg head_req empty_app None in
-  exists resp, parse_stream [true] (wire (o_writes res)) = ([resp], chunk_terminator)
-               /\ rs_framing resp = FNoBody
-               /\ In (te_name, chunked_tok) (map (fun f => (lower_ascii (fst f), snd f)) (rs_fields resp)).
-Proof. exact head_chunked_leftover. Qed.
-Print Assumptions C03_head_chunked_refuted.
+(* HEAD: a plain application without a declared length that produces no body
+   bytes: the client, knowing it asked with HEAD, reads the head and nothing is
+   left over, whatever the head says about Transfer-Encoding. *)
+Theorem C03_frame_head_partial : forall c r status hs kind chunks hc,
+  cfg_clean c ->
+  r_error r = None -> is_file kind = false -> len1 kind = false -> Forall (not_cl py_lower) hs ->
+  plain_fields py_cap (strs_of hs) ->
+  r_head r = true -> all_empty chunks ->
+  let res := run_task c r (simple_app status hs kind chunks hc) None in
+  o_raw res = None ->
+  exists sl fields,
+    parse_one true (wire (o_writes res)) = Some (mkResponse sl fields FNoBody [], [])
+    /\ sl = lit "HTTP/" ++ (if beqb (r_version r) (lit "1.1") then lit "1.1" else lit "1.0") ++ [32] ++ status
+    /\ (forall h, In h (strs_of hs) -> In (client_field (norm_field py_cap h)) fields).
+Proof.
+  exact (fun c r status hs kind chunks hc Hc =>
+           frame_head_nolen py_cap py_lower py_cap_clean py_cap_te c Hc r status hs kind chunks hc).
+Qed.
+Print Assumptions C03_frame_head_partial.
 
-Theorem C03_error_keepalive_refuted :
+(* A task that has already decided to close before its head is built (every
+   ErrorTask; a WSGI task that found too few bytes) takes the plain close branch
+   on HTTP/1.0: no Keep-Alive is announced next to Connection: close. *)
+Theorem C03_closed_task_no_keepalive : forall conn fc clh t,
+  t_v11 t = false -> t_cof t = true ->
+  bh_conn py_cap py_lower conn fc clh t = set_close_on_finish py_cap py_lower t.
+Proof. exact (bh_conn_closed_10 py_cap py_lower). Qed.
+Print Assumptions C03_closed_task_no_keepalive.
+
+(* The three classes repaired in /repo (b49920f, 766d449, 5ee3173), as instances. *)
+Theorem C03_head_nothing_left :
+  let res := run_task sample_cfg head_req empty_app None in
+  exists resp, parse_stream [true] (wire (o_writes res)) = ([resp], [])
+               /\ rs_framing resp = FNoBody.
+Proof. exact head_nothing_left. Qed.
+Print Assumptions C03_head_nothing_left.
+
+Theorem C03_error_single_connection_field :
   let res := run_task sample_cfg ka10_req failing_app None in
   exists resp, parse_stream [false] (wire (o_writes res)) = ([resp], [])
-               /\ In (lit "Connection", lit "close") (rs_fields resp)
-               /\ In (lit "Connection", lit "Keep-Alive") (rs_fields resp)
+               /\ filter (field_is (lit "connection")) (rs_fields resp) = [(lit "Connection", lit "close")]
                /\ o_close res = true.
-Proof. exact error_both_connection_fields. Qed.
-Print Assumptions C03_error_keepalive_refuted.
+Proof. exact error_single_connection_field. Qed.
+Print Assumptions C03_error_single_connection_field.
 
-Theorem C03_write_then_file_refuted :
+Theorem C03_write_then_file_framed :
   let res := run_task sample_cfg sample_req write_then_file_app None in
-  o_raw res = None /\ o_handover res = true
-  /\ parse_stream [false] (wire (o_writes res)) = ([], wire (o_writes res)).
-Proof. exact write_then_file_unparsable. Qed.
-Print Assumptions C03_write_then_file_refuted.
+  o_raw res = None /\ o_handover res = false /\ o_closes res = 1%nat
+  /\ exists resp, parse_stream [false] (wire (o_writes res)) = ([resp], [])
+                  /\ rs_framing resp = FChunked /\ rs_body resp = lit "xabcdef".
+Proof. exact write_then_file_framed. Qed.
+Print Assumptions C03_write_then_file_framed.
